@@ -1,5 +1,5 @@
 (* Props/C04.v — rollback restores exactly the previously committed state, repeatedly (raw vectors; code as
-   of 397122a).  Statements only.
+   of 397122a + the repair of write() for stored_len above the on-disk length, findings 3/4).  Statements only.
    UNBOUNDED (all element types, all retention settings k > 0, all histories of the strict class), Vec/RvChain.v:
      C04_rollback_step    one rollback from a committed state lands on the previous committed snapshot (contents,
                           deleted slots, stamp) and re-establishes the whole invariant K (baseline, chain of records,
@@ -11,30 +11,41 @@
    K s a: R s a + a ghost level per retained snapshot (underlying values also under deleted slots, deleted set,
    stamp, lowest admissible stored length) + "prev_* over the disk describe the top level" + the change directory is
    the chain of valid records (RecOK: each carries exactly what separates two adjacent levels) followed by records
-   above the current stamp.  Strict class (RvChain.strict): edits (push, truncate, update, delete, take, fill),
+   above the current stamp + the part of the baseline behind the region's end is in prev_updated (RvChain.Over).
+   Strict class (RvChain.strict): edits (push, truncate, update, delete, take, fill),
    commits with increasing stamps whose record satisfies valid_record (all lengths below 2^64), rollback /
-   rollback_before from committed states that do not lengthen the vector (= outside
-   KnownClass_rollback_of_truncation, findings 3/4, whose two `_refuted` witnesses stay).  NOT in the strict class,
+   rollback_before from committed states — INCLUDING rollbacks that make the vector longer than the region (they undo
+   a truncating commit; the former KnownClass_rollback_of_truncation of findings 3/4): since the repair write() first
+   extends the region to stored_len, and the refinement invariant (RvRefine.Inv) no longer needs
+   stored_len <= on-disk length.  The two `_refuted` witnesses of findings 3/4 no longer fail; they are part of
+   C04_rollback_of_truncation_histories_agree.  NOT in the strict class,
    hence still only in the bounded C04_continuation_partial (and in C03 for their own effect): plain
    write/flush/re-import between commits when nothing was edited, reset, stamped_write without a record.
-   rollback_chain / C16_count need no non-lengthening hypothesis (a lengthening rollback still lands on the right
-   snapshot; only the continuation after it is the known finding). *)
+   C04_full (every disciplined history, unbounded) is therefore neither refuted nor proved in full: no counterexample
+   is known; what is missing is exactly the induction over those plain operations between commits. *)
 From Anydb Require Import Common.Base Common.LE Vec.RvBase Vec.RvChange Vec.RvChangeProofs Vec.RvModel Vec.RvRollback Vec.RvSpec
   Vec.RvRollbackProofs Vec.RvRefine Vec.RvChain Vec.RvInst Vec.RvFindings Vec.RvSmallScope Vec.RvStatements.
 
 Definition C04_full : Prop := forall k0 h, disciplined k0 h = true -> agree k0 h = true.
-Definition C04_outside_known_full : Prop :=
-  forall k0 h, disciplined k0 h = true -> KnownClass_rollback_of_truncation k0 h = false -> agree k0 h = true.
 
-Theorem C04_truncation_push_refuted :
-  exists k0 h, disciplined k0 h = true /\ KnownClass_rollback_of_truncation k0 h = true /\ agree k0 h = false.
-Proof. exact C04_refuted_truncation_push. Qed.
-Print Assumptions C04_truncation_push_refuted.
+(* the witnesses that refuted C04_full before the repair of write() (finding 3: rollback of a truncating commit, push,
+   commit; finding 4: …, delete of a restored slot, commit), the variant with the LAST restored slot deleted (the region
+   used to end one slot short) and a combined history with two more rollbacks: disciplined, in the class "a rollback makes
+   the vector longer", and in agreement with the reference *)
+Theorem C04_rollback_of_truncation_histories_agree :
+  (disciplined 3 wit3 = true /\ Class_rollback_of_truncation 3 wit3 = true /\ agree 3 wit3 = true) /\
+  (disciplined 3 wit4 = true /\ Class_rollback_of_truncation 3 wit4 = true /\ agree 3 wit4 = true) /\
+  (disciplined 3 wit_last = true /\ Class_rollback_of_truncation 3 wit_last = true /\ agree 3 wit_last = true) /\
+  (disciplined 3 wit34 = true /\ Class_rollback_of_truncation 3 wit34 = true /\ agree 3 wit34 = true).
+Proof. exact wit34_agree. Qed.
+Print Assumptions C04_rollback_of_truncation_histories_agree.
 
-Theorem C04_truncation_delete_refuted :
-  exists k0 h, disciplined k0 h = true /\ KnownClass_rollback_of_truncation k0 h = true /\ agree k0 h = false.
-Proof. exact C04_refuted_truncation_delete. Qed.
-Print Assumptions C04_truncation_delete_refuted.
+(* … and afterwards the region backs every stored slot: stored_len = on-disk length, nothing buffered *)
+Theorem C04_rollback_of_truncation_histories_settled :
+  settled (u64_run (w_init 3) wit3) = true /\ settled (u64_run (w_init 3) wit4) = true /\
+  settled (u64_run (w_init 3) wit_last) = true /\ RvModel.stored_len (u64_run (w_init 3) wit_last) = 27.
+Proof. exact wit34_settled. Qed.
+Print Assumptions C04_rollback_of_truncation_histories_settled.
 
 (* the histories of the repaired defects (7, A, B1, B2, C) and the chained rollback across a truncating commit
    agree with the reference on the model of the repaired code *)
@@ -46,7 +57,7 @@ Print Assumptions C04_repaired_histories_agree.
 
 Theorem C04_continuation_partial :
   forall k0 h, (k0 = 1 \/ k0 = 2) -> In h (all_hist alpha_c04 5) ->
-  disciplined k0 h = true -> KnownClass_rollback_of_truncation k0 h = false -> agree k0 h = true.
+  disciplined k0 h = true -> agree k0 h = true.
 Proof. exact C04_small_scope. Qed.
 Print Assumptions C04_continuation_partial.
 
@@ -59,7 +70,7 @@ Theorem C04_rollback_step :
   | Sn :: _ =>
     exists s' : rv, rv_rollback tsize dec s = (s', Ok tt) /\ K tsize enc dec s' (fst (sv_rollback a)) /\ Clean s' /\
       view tsize dec s' = sn_contents Sn /\ stamp s' = sn_stamp Sn /\
-      (Inv s -> len (sn_contents Sn) <= slen a -> Inv s')
+      (Inv s -> Inv s')
   end.
 Proof. exact @rollback_step. Qed.
 Print Assumptions C04_rollback_step.
@@ -79,7 +90,7 @@ Theorem C04_rollback_before :
   forall (s : rv) (a : sv T) (target : N), K tsize enc dec s a -> Clean s -> changes s <> None ->
   let a' := sv_rollback_before (S (length (committed a))) target a in
   exists s' : rv, rv_rollback_before tsize dec target s = (s', Ok (sstamp a')) /\ K tsize enc dec s' a' /\ Clean s' /\
-    view tsize dec s' = contents a' /\ (Inv s -> nonlen (slen a) (committed a) -> Inv s').
+    view tsize dec s' = contents a' /\ (Inv s -> Inv s').
 Proof. exact @rollback_before_spec. Qed.
 Print Assumptions C04_rollback_before.
 
